@@ -138,3 +138,88 @@ reg(Contract(
     ensures=[("propagate", _post)], canaries=[("never_reverses", lambda c: z3.BoolVal(not [1 for k, _ in c.st.ghost.get("calls_on_self", []) if k == "_reverse_velocities"]))],
     options={"fstring_uf": True},
 ))
+
+
+# ------------------------------------------------------------------ dump_config / dump_frame / dump_phasepoint
+class DumpSelf(BaseSelf):
+    """`self` for the dump helpers: _extract_frame / _copyfile are recorded (engine specific / shutil), _name_output, dump_config
+    and dump_frame are the real bodies (inlined)."""
+
+    def __init__(self, st):
+        super().__init__(st)
+        self.ext = fresh("ext", INT)
+
+    def pyvc_getattr(self, attr, st, ex):
+        if attr == "ext":
+            return self.ext
+        return super().pyvc_getattr(attr, st, ex)
+
+    def pyvc_method(self, name, args, kwargs, st, ex, node):
+        if name in ("_extract_frame", "_copyfile"):
+            st.ghost = dict(st.ghost, calls_on_self=list(st.ghost.get("calls_on_self", [])) + [(name, [_code(a) for a in args])])
+            yield st, None
+            return
+        if name in ("_name_output", "dump_config", "dump_frame"):
+            c = ex.contracts[f"EngineBase.{name}"]
+            yield from ex.call_contract(c, [self] + list(args), kwargs, st, node)
+            return
+        raise Unsupported(f"self.{name}")
+
+
+for _n in ("_name_output", "dump_config", "dump_frame"):
+    reg(Contract(f"EngineBase.{_n}", src=(ENGBASE_PY, f"EngineBase.{_n}"), inline=True, defaults={"deffnm": "conf"}))
+
+
+def _dc_make(idx_none):
+    def make(ex, st):
+        e = DumpSelf(st)
+        return {"self": e, "config": (fresh("pos_file", INT), None if idx_none else fresh("idx", INT)), "deffnm": fresh("deffnm", INT)}
+    return make
+
+
+def _dc_post(ctx):
+    calls = ctx.st.ghost.get("calls_on_self", [])
+    pos_file, idx = ctx.a("config")
+    out = _code(ctx.result)
+    res = [("returns_a_file_in_the_engines_directory_named_after_deffnm_and_ext",
+            z3.BoolVal(z3.is_app(out) and out.decl().name() == "join" and z3.eq(out.arg(0), ctx.a("self").exe_dir)))]
+    if idx is None:
+        res += [("single_file_configuration_is_never_extracted", z3.BoolVal(all(k != "_extract_frame" for k, _ in calls))),
+                ("copied_to_the_output_exactly_when_it_is_a_different_file", z3.If(pos_file != out, z3.BoolVal([k for k, _ in calls] == ["_copyfile"]), z3.BoolVal(calls == []))
+                 if len(calls) <= 1 else z3.BoolVal(False))]
+        if len(calls) == 1 and calls[0][0] == "_copyfile":
+            res.append(("copy_goes_from_the_configuration_file_to_the_output", z3.And(calls[0][1][0] == pos_file, calls[0][1][1] == out)))
+    else:
+        res.append(("frame_idx_of_the_trajectory_is_extracted_exactly_once_into_the_output", z3.BoolVal(len(calls) == 1 and calls[0][0] == "_extract_frame")))
+        if len(calls) == 1 and calls[0][0] == "_extract_frame":
+            res.append(("extraction_arguments", z3.And(calls[0][1][0] == pos_file, calls[0][1][1] == idx, calls[0][1][2] == out)))
+    res.append(("nothing_in_the_heap_changes", unchanged_except(ctx, [])))
+    return res
+
+
+reg(Contract("EngineBase.dump_config#contract", src=(ENGBASE_PY, "EngineBase.dump_config"), cases=[Case("single_file", _dc_make(True)), Case("trajectory_frame", _dc_make(False))],
+             ensures=[("dump_config", _dc_post)], canaries=[("never_extracts", lambda c: z3.BoolVal(not c.st.ghost.get("calls_on_self")))], options={"fstring_uf": True}))
+
+
+def _dp_make(ex, st):
+    s = mk_system(st, "phasepoint")
+    return {"self": DumpSelf(st), "phasepoint": s, "deffnm": fresh("deffnm", INT)}
+
+
+def _dp_post(ctx):
+    calls = ctx.st.ghost.get("calls_on_self", [])
+    s = ctx.a("phasepoint")
+    res = [("frame_is_extracted_exactly_once", z3.BoolVal(len(calls) == 1 and calls[0][0] == "_extract_frame"))]
+    if len(calls) == 1 and calls[0][0] == "_extract_frame":
+        src, idx, out = calls[0][1]
+        res += [("from_the_configuration_the_phase_point_referenced", z3.And(src == fld(ctx.old, "System.cfg_file", s.term), idx == fld(ctx.old, "System.cfg_idx", s.term))),
+                ("phase_point_now_references_frame_0_of_the_dumped_file", z3.And(fld(ctx.st, "System.cfg_file", s.term) == out, fld(ctx.st, "System.cfg_idx", s.term) == 0))]
+    res.append(("only_this_phase_points_file_reference_changes", z3.And(
+        unchanged_except(ctx, ["System.cfg_file", "System.cfg_idx"]),
+        ctx.st.heap["System.cfg_file"] == z3.Store(ctx.old.heap["System.cfg_file"], s.term, fld(ctx.st, "System.cfg_file", s.term)),
+        ctx.st.heap["System.cfg_idx"] == z3.Store(ctx.old.heap["System.cfg_idx"], s.term, fld(ctx.st, "System.cfg_idx", s.term)))))
+    return res
+
+
+reg(Contract("EngineBase.dump_phasepoint", src=(ENGBASE_PY, "EngineBase.dump_phasepoint"), cases=[Case("sym", _dp_make)],
+             ensures=[("dump_phasepoint", _dp_post)], canaries=[("never_extracts", lambda c: z3.BoolVal(not c.st.ghost.get("calls_on_self")))], options={"fstring_uf": True}))
